@@ -138,7 +138,7 @@ def handler_model(name):
 RM_HOOKS = {'model:connection.ConnectionBase.' + h: handler_model(h) for h in HANDLERS.values()}
 
 
-@contract('connection.ConnectionBase._recv_message', props=['C04', 'C01', 'C06'])
+@contract('connection.ConnectionBase._recv_message', props=['C04', 'C01', 'C06', 'C05'])
 class _:
     """the handlers are abstracted to recorded events here (each has its own contract): what is decided is WHICH handler runs,
     with which arguments, and that a message already received inside the 256-message window reaches no handler at all"""
